@@ -157,3 +157,8 @@ EXTRA["C05"] = EXTRA.get("C05", []) + [
     M("ext-flag-counts-annex", "tx.py", "            num_items = len(tx_in.witness)\n            if tx_in.witness.has_annex():\n                num_items -= 1\n            if num_items > 1:\n",
       "            if len(tx_in.witness) > 1:\n", ["C05.11"], "key path + annex hashed as script path (F36 undone)"),
 ]
+
+EXTRA["C06"] = EXTRA.get("C06", []) + [
+    M("witness-program-anywhere", "script.py", "                is_program = len(commands) == 0 and len(stack) == 2\n",
+      "                is_program = len(stack) == 2\n", ["C06.20"], "witness program pushed by the ScriptSig is executed (F37 undone)"),
+]
